@@ -60,6 +60,8 @@ ALPHABET = [
     ["select", [Cn("k"), Cn("x")]],
     ["mutate", [["x", ["sub", lit(10), Cn("x")]]]],  # overwrite (order-reversing, so that a mix-up of old and new x shows)
     ["mutate", [["c", lit(1)]]],  # constant column (must not be padded with the constant by an outer join)
+    # the filter of the right operand of an inner join becomes part of the WHERE clause of the join
+    ["join", {"src": "U", "hist": [["filter", [["gt", ["col", "src", "U", "x"], lit(2)]]]]}, "inner", [["eq", Cn("k"), ["col", "right", "k"]]]],
     # the right operand is itself a subquery
     ["union", {"src": "U", "hist": [["arrange", [["col", "src", "U", "k"]]], ["slice_head", 2, 0], ["alias"]]}, False],
     ["join", {"src": "R", "hist": [["arrange", [kR]], ["slice_head", 3, 0], ["alias"]]}, "left", [["eq", Cn("k"), ["col", "right", "rk"]]]],
